@@ -5,7 +5,7 @@
    stdhash  ( kind bytes [bytes] )       -> bytes | number          kind = path | os | str | pathcmp
    args     ( argv files )               -> ( ok ... ) | ( cannot_cache why extra ) | ( not_compilation )
    key      ( argv files depinfo env shlibs version filenames )
-                                         -> ( ok PREFIX tail_ok key_ok outputs ) | ( err ) | as for args
+                                         -> ( ok PREFIX tail_ok key_ok outputs pairs ) | ( err ) | as for args
    keypair  ( reqA reqB meta )           -> ( same resA resB )
    files    = ( (relpath content digest (archive_digest)?) ... )   relative to the virtual working directory /@ *)
 From Coq Require Import List NArith Bool.
@@ -148,7 +148,8 @@ Definition key_full (x : sx) : sx * option bytes :=
                     SB (encode_with spec_prefix r);
                     sbool tail_is_last;
                     sbool true;
-                    SL (map enc_output (outputs_of p (map get_B (get_L (nth_sx 6 x))))) ],
+                    SL (map enc_output (outputs_of p (map get_B (get_L (nth_sx 6 x)))));
+                    SL (map enc_pair (p_arguments p)) ],
                Some (encode r))
           | _, _, _, _ => (SL [sym "err"], None)
           end
